@@ -348,8 +348,8 @@ class RunLengthArray(NPSIndexable, np.lib.mixins.NDArrayOperatorsMixin):
     def __array_function__(self, func: callable, types: List, args: List, kwargs: Dict):
         if func not in HANDLED_FUNCTIONS:
             return NotImplemented
-        if not all(issubclass(t, RunLengthArray) for t in types):
-            return NotImplemented
+        if not all(issubclass(t, RunLengthArray) or (func is np.histogram and issubclass(t, np.ndarray)) for t in types):
+            return NotImplemented  # (the bin edges of np.histogram may be an ndarray)
         return HANDLED_FUNCTIONS[func](*args, **kwargs)
 
     def __array_ufunc__(self, ufunc: callable, method: str, *inputs, **kwargs):
